@@ -4,11 +4,13 @@ import YaegiVerif.Generated.C10
 /- Line-protocol front end for C10 (glue, not a proof obligation).
 
    hist EV…     → y=<results>;id=<n> g=<results>
-     EV = (def KIND a b) | (use i VIA x) | (cancel CK)
-     KIND = named | method | closure | mvtop | mvfunc | wrapper | imported      VIA = eval | host
+     EV = (def KIND a b BLK) | (use i VIA x) | (cancel CK)
+     KIND = named | method | closure | mvtop | mvfunc | wrapper | imported      VIA = eval | evalctx | host
+     BLK  = 1 if the body computes its value in a goroutine and receives it over a channel, else 0
      CK   = loop | chan | expb | expa   (expired context: stop() before / after Execute refreshes the root id)
           | hold   (not an event of `RunId.Ev`: a busy loop whose goroutine the harness keeps from returning until the
                     NEXT event is over — the window of finding F10-1: `HSt.stoppedNotLeft`, then the event, then `HSt.leave`)
+          | expl   (not an event of `RunId.Ev` either: the evaluation finished just before the watcher ran stop(): `XEv.lateStop`)
    results = values returned by the uses, in order, joined by ","   ("-" if there is no use)
    y= is the history run on the run-id model with the extracted facts (a dead definition returns 0 and keeps its
    state), g= the specification (every definition keeps working). -/
@@ -22,11 +24,11 @@ def parseKind : String → Option DefKind
   | _ => none
 
 def parseEv : Sexp → Option Ev
-  | .list [.atom "def", .atom k, a, b] => do
+  | .list [.atom "def", .atom k, a, b, blk] => do
     let kk ← parseKind k
-    some (.define kk (← a.nat?) (← b.nat?))
+    some (.define kk (← a.nat?) (← b.nat?) ((← blk.nat?) != 0))
   | .list [.atom "use", i, .atom v, x] => do
-    let via ← (match v with | "eval" => some Via.eval | "host" => some Via.host | _ => none)
+    let via ← (match v with | "eval" => some Via.eval | "evalctx" => some Via.evalCtx | "host" => some Via.host | _ => none)
     some (.use (← i.nat?) via (← x.nat?))
   | .list [.atom "cancel", .atom c] =>
     (match c with
@@ -39,6 +41,7 @@ def showResults (rs : List Nat) : String :=
 
 def parseXEv : Sexp → Option XEv
   | .list [.atom "cancel", .atom "hold"] => some .hold
+  | .list [.atom "cancel", .atom "expl"] => some .lateStop
   | e => (parseEv e).map .ev
 
 def handle (args : List Sexp) : String :=
